@@ -618,7 +618,8 @@ def c11_suspension(obs, case=None, pre="pre", post="post"):
             if not any(m.command == "null" and m.args and m.args[0] == pre for m in msgs[s + 1: r]):
                 tags.append("pre-plan-did-not-run-before-waiting")
             after = msgs[r + 1: r + 4]
-            if not any(m.command == "null" and m.args and m.args[0] == post for m in after):
+            preempted = any(m.command == "_start_suspender" for m in after)  # another suspension took effect right at the release: its own pre/wait come first
+            if not preempted and not any(m.command == "null" and m.args and m.args[0] == post for m in after):
                 tags.append("post-plan-did-not-run-right-after-release")
         # every device moved before the suspension is told to stop while suspended
         moved = {d for (j, d, op, a), lm in zip(obs.ledger, obs.ledger_msg) if op == "set" and lm is not None and any(lm is x for x in msgs[:s])}
